@@ -90,9 +90,48 @@ def pat_head(p):
     return pat_s(p)
 
 
+def subst_idents(node, mapping):
+    """deep copy of an expression with single-segment paths renamed by `mapping` (name -> replacement expr json)"""
+    if isinstance(node, list):
+        return [subst_idents(x, mapping) for x in node]
+    if not isinstance(node, dict):
+        return node
+    if node.get('k') == 'Path' and len(node.get('path', {}).get('segs', [])) == 1 and node['path']['s'] in mapping:
+        return mapping[node['path']['s']]
+    return {k: (subst_idents(v, mapping) if not (isinstance(k, str) and k.startswith('_')) else v) for k, v in node.items()}
+
+
+def inline_private_helper(cx, f, v, depth=0):
+    """`helper(args)` where helper is a private, single-expression function of the same module that is not itself one of the
+    documented conversion helpers: replaced by its body with the arguments substituted (an extracted helper changes nothing)"""
+    if depth > 3 or v['k'] != 'Call' or v['func']['k'] != 'Path':
+        return v
+    segs = [x['id'] for x in v['func']['path']['segs']]
+    if segs[-1].startswith('meta_') or segs[-1].startswith('auto_adjust') or len(segs) != 1:
+        return v
+    gs = cx.crate.find_fn(f.module, segs, f.self_ty)
+    if len(gs) != 1 or gs[0].module is not f.module:
+        return v
+    g = gs[0]
+    leaves = result_leaves(cx, g)
+    if len(leaves) != 1 or leaves[0][1]:
+        return v
+    names = [p_[0] for p_ in g.params() if p_[0] != 'self']
+    if len(names) != len(v['args']):
+        return v
+    mapping = {}
+    for n_, a_ in zip(names, v['args']):
+        x = a_
+        while x['k'] == 'Ref':
+            x = x['expr']
+        mapping[n_] = x
+    return inline_private_helper(cx, f, subst_idents(leaves[0][0], mapping), depth + 1)
+
+
 def table(cx, f):
     rows = []
     for v, ctx, how, ev in result_leaves(cx, f):
+        v = inline_private_helper(cx, f, v)
         rows.append((kinds_of_ctx(ctx), es(v).replace(' ', ''), ev))
     return rows
 
